@@ -24,7 +24,7 @@ import subprocess
 import sys
 
 VERIF = os.path.dirname(os.path.dirname(os.path.abspath(__file__)))
-REPO = os.environ.get("OXI_REPO", "/repo")
+REPO = os.environ.get("VERIF_REPO", "/repo")
 SRC_TEXT = os.path.join(REPO, "oxidize-pdf-core/src/text/encoding.rs")
 SRC_PARSER = os.path.join(REPO, "oxidize-pdf-core/src/parser/encoding.rs")
 OUT_REL = "lean/OxiVerif/Gen/C25Tables.lean"
